@@ -3,7 +3,7 @@
 import json, os, re
 HERE = os.path.dirname(os.path.dirname(os.path.abspath(__file__)))
 rows = []
-n = caught = 0
+n = caught = noted = 0
 for name in sorted(os.listdir(os.path.join(HERE, "seeded"))):
     mp = os.path.join(HERE, "seeded", name, "meta.json")
     if not os.path.exists(mp):
@@ -22,15 +22,15 @@ for name in sorted(os.listdir(os.path.join(HERE, "seeded"))):
         cells.append(f"{k}: **{v['verdict']}**" + (f" `{sig}`" if sig else ""))
         ok = ok or v["verdict"] == "caught"
     if not cells or (not ok and m.get("note")):
-        cells = [m.get("note", "patch no longer applies")[:420].replace("|", "\\|")]
-        ok = True
+        cells = [m.get("note", "patch no longer applies")[:520].replace("|", "\\|")]
+        noted += 1
     n += 1
     caught += ok
     first = m.get("checks", {}).get(m["property"], {}).get("verdict")
     hist = "" if first in (None, "caught") else " (missed when first imported; check strengthened)"
     rows.append(f"| {name} | {summ} | {'; '.join(cells)}{hist} |")
 begin, end = "<!-- SEEDED-TABLE-BEGIN -->\n", "<!-- SEEDED-TABLE-END -->\n"
-table = begin + f"{n} seeded changes, {caught} detected by the quick tier of at least one check.\n\n| id | change (the author's one-line summary) | quick tier of the property's check (and of related checks) |\n|----|------|------|\n" + "\n".join(rows) + "\n" + end
+table = begin + f"{n} seeded changes, {caught} detected by the quick tier (seed 0) of at least one check, {noted} others explained in their rows.\n\n| id | change (the author's one-line summary) | quick tier of the property's check (and of related checks) |\n|----|------|------|\n" + "\n".join(rows) + "\n" + end
 p = os.path.join(HERE, "DESIGN.md")
 s = open(p).read()
 i, j = s.index(begin), s.index(end) + len(end)
